@@ -100,6 +100,28 @@ def edit_power(path, kind, rng):
             if p[1] == '1' and p[4] == '2':
                 del rows[i]
                 break
+    elif kind.startswith('count-'):
+        # the number of items of one component is wrong in every cell alike
+        # (indices stay consistent from cell to cell): one item fewer, one
+        # more, or a single lumped item
+        _, how, comp = kind.split('-')
+        code = {'pins': '1', 'duct': '2', 'cool': '3'}[comp]
+        mine = [r for r in rows if r.split(',')[1] == code]
+        nmax = max(int(r.split(',')[4]) for r in mine)
+        if how == 'less':
+            rows = [r for r in rows if not (r.split(',')[1] == code and
+                                            int(r.split(',')[4]) == nmax)]
+        elif how == 'more':
+            extra = []
+            for r in mine:
+                p = r.split(',')
+                if int(p[4]) == nmax:
+                    p[4] = str(nmax + 1)
+                    extra.append(','.join(p))
+            rows = rows + extra
+        else:   # lumped
+            rows = [r for r in rows if not (r.split(',')[1] == code and
+                                            int(r.split(',')[4]) > 1)]
     elif kind == 'zgap':
         # shift the lower bound of the upper cells upward: a gap
         zs = sorted({float(r.split(',')[2]) for r in rows})
@@ -433,7 +455,10 @@ def targeted(rng, base, tier):
                          for p in c['power'].values()],
         ['PowerProfile'], badpow)
     for ed in ('empty', 'ragged', 'text', 'few-columns', 'missing-item',
-               'zgap', 'nan', 'inf', 'neginf'):
+               'zgap', 'nan', 'inf', 'neginf',
+               'count-less-pins', 'count-less-duct', 'count-less-cool',
+               'count-more-pins', 'count-more-duct', 'count-more-cool',
+               'count-lumped-cool', 'count-lumped-duct'):
         add('power-' + ed, lambda c, t, r: None, ['PowerProfile'], badpow,
             pedit=ed)
     if len(base(random.Random(1))[0]['types']) > 1:
